@@ -45,7 +45,19 @@ def _ops():
 
 @st.composite
 def _case(draw):
-    return {"ops": [list(o) for o in draw(st.lists(_ops(), min_size=1, max_size=14))]}
+    # histories start by creating one or two instances (otherwise most of them would be spent on no-ops) and contain
+    # one of the "special states" of the non-trivial rule early on
+    head = [["new", draw(st.integers(0, 1)), draw(st.sampled_from(["", "", "c", "cn", "cs"])), draw(_o)]
+            for _ in range(draw(st.integers(1, 2)))]
+    special = draw(st.sampled_from([
+        [["cls_set", 1, draw(st.integers(0, 3)), draw(_o)]],
+        [["enter", draw(_i)], ["exit", True]],
+        [["enter", draw(_i)], ["enter", draw(_i)], ["exit", draw(st.booleans())], ["exit", False]],
+        [["read", draw(_i), draw(st.integers(0, 4))]],
+        [],
+    ]))
+    rest = [list(o) for o in draw(st.lists(_ops(), min_size=1, max_size=10))]
+    return {"ops": head + special + rest}
 
 
 def strategy(tier):
